@@ -69,6 +69,16 @@ NextJ == UNCHANGED dummy /\
                      xi1 |-> Xi1_se23(h, 1, -2), xi0 |-> Xi0_se23(h, y1, y2), k2 |-> K2_se23(h), k3 |-> K3_se23(h),
                      ad1 |-> adm("se23", Xi1_se23(h, 1, -2)), ad0 |-> adm("se23", Xi0_se23(h, y1, y2)),
                      AdE |-> AdClosed(E), AdEm |-> AdClosed(Em)]
+  (* general (non-screw) translation, any lattice angle incl. the smallest: Ad_exp(xi) is assembled
+     from R and p = V rho (symbolic-mu form, ExpLog!GenP) with the block structure proven in
+     Adjoint!AdLaw; no large integer products arise, so theta down to 2e-4 rad is reachable *)
+  \/ /\ tv.op = "seedj"
+     /\ LET h == tv.h cell == HCell(tv.h) IN
+        \/ \E rho \in {<<3,1,-1>>, <<0,-2,1>>} :
+              tv' = [op |-> "jac_se3_gen", h |-> h, rho |-> rho, p |-> GenP(h, rho), cell |-> cell, exp |-> RM(QMat(h), QNorm(h))]
+        \/ \E r1 \in {<<3,1,-1>>}, r2 \in {<<0,-2,1>>, <<1,1,1>>} :
+              tv' = [op |-> "jac_se23_gen", h |-> h, rho |-> r1, rho2 |-> r2, p |-> GenP(h, r1), p2 |-> GenP(h, r2), cell |-> cell,
+                     exp |-> RM(QMat(h), QNorm(h))]
   \/ /\ tv.op = "seedz"
      /\ \/ \E r \in Rhos : tv' = [op |-> "jac_zero", kind |-> "se3", xi |-> r \o <<0,0,0>>, ad |-> adm("se3", r \o <<0,0,0>>)]
         \/ \E r \in Rhos, r2 \in {<<1,1,1>>, <<0,0,0>>} :
